@@ -174,3 +174,22 @@ func H_C17_LookupVsSwap() {
 			})
 		})
 }
+
+// H_C17_RegisterFirst: the first use of the writer / reader package in a process is the registration of a driver for
+// a built-in format, possibly next to a lookup: the lookup afterwards returns what some sequential order of the calls
+// returns - the driver just registered (the lazy initialisation of the registry must not come later and undo it).
+func H_C17_RegisterFirst() {
+	f := []formats.Format{formats.CDX15JSON, formats.SPDX23JSON}[rt.NondetChoice("builtin", 2)]
+	if rt.NondetChoice("side", 2) == 0 {
+		mine := nopSerializer{}
+		writer.RegisterSerializer(f, mine)
+		s, err := writer.GetFormatSerializer(f)
+		_, isMine := s.(nopSerializer)
+		rt.Assert(err == nil && isMine, "C17.sequential.RegisterSerializer")
+		return
+	}
+	reader.RegisterUnserializer(f, nopUnserializer{})
+	u, err := reader.GetFormatUnserializer(f)
+	_, isMine := u.(nopUnserializer)
+	rt.Assert(err == nil && isMine, "C17.sequential.RegisterUnserializer")
+}
